@@ -519,7 +519,7 @@ func (r *runner) Exec(op string) (string, string) {
 func (r *runner) create(kv map[string]string) (string, string) {
 	r.Close()
 	*r = runner{}
-	for _, k := range []string{"pub", "priv", "f1", "f2", "f2b", "f3", "f11", "f12", "hl"} {
+	for _, k := range []string{"pub", "priv", "f1", "f2", "f2b", "f3", "f11", "f12", "hl", "f13", "fo1"} {
 		if _, ok := kv[k]; !ok {
 			return "bad-op", ""
 		}
